@@ -111,6 +111,8 @@ type Env struct {
 	PItems []*Item
 	Anys   []interface{}
 	Empty  []int
+	Arr3   [3]int // Go arrays (not slices)
+	ArrS   [2]string
 
 	MI map[string]int
 	MA map[string]interface{}
@@ -240,6 +242,7 @@ func New(l *Log) *Env {
 	e.StrEq = func(a, b fmt.Stringer) bool { l.add("StrEq", a, b); return a == b }
 	e.FnEnv = func(n int) int { l.add("FnEnv", n); return n + e.B }
 	e.Div = func(a, b int) int { l.add("Div", a, b); return a / b }
+	e.Arr3, e.ArrS = [3]int{7, 8, 9}, [2]string{"p", "q"}
 	e.MkBox = func(n int) Box { l.add("MkBox", n); return Box{Xs: []int{n, n + 1}, N: n, Any: []int{n}} }
 	e.FnAnys = func(xs []interface{}) int { l.add("FnAnys", xs); return len(xs) }
 	e.Tuple = func(xs ...interface{}) interface{} { l.add("Tuple", fmt.Sprint(xs)); return xs }
